@@ -48,6 +48,10 @@ impl Monitor for C12 {
         if let LCfg::Dense { n: width, .. } = &mut cfg.layers[last] {
             *width = if wide { rng.range(2, 5) } else { 1 };
         }
+        if idx % 5 == 4 && cfg.layers.len() >= 2 {
+            insert_block(&mut rng, &mut cfg, 3);
+        }
+        let last = cfg.layers.len() - 1;
         let params = gen_params(&cfg, &mut rng, -1.0, 1.0).unwrap();
         let mut out = Out::new(format!("{} {} n{} tol{:e} softmax{} threads{}", obj.name(), cfg.describe(), n, tol, softmax, threads));
         out.cover("sizes", n.to_string());
